@@ -118,6 +118,16 @@ def run(repo: Repo, rep: Report, tier: str) -> None:
     proj = [n for n in walk_local(lsw.node) if isinstance(n, ast.Assign) and isinstance(n.value, ast.Call) and call_name(n.value) == "arithmetic" and q in norm(n.value)]
     okj = bool(proj) and any(t.endswith(f".signal_type != {q}") and pol for t, pol in cguards_any(lsw, proj[0]))
     rep.check(okj, "C03-R2", "any other signal-valued enable not already on the enable signal is projected onto it", "; ".join(t for t, p in cguards(lsw, proj[0]) if p)[:160] if proj else "projection missing", lsw.loc(proj[0]) if proj else lsw.loc())
+    # the exemption from retyping: a *reference* counts as "constant one" only when it is on the enable signal already (a named `Signal one = 1;`, or a Signal
+    # parameter bound to the literal 1, is a constant 1 on some other signal: the gates never see it and the cell adds its input to itself every tick)
+    exempt = [n for n in walk_local(lsw.node) if isinstance(n, ast.Assign) and isinstance(n.targets[0], ast.Name) and isinstance(n.value, ast.Constant) and n.value.value is True
+              and any("IRConst" in t and pol for t, pol in cguards(lsw, n))]
+    for n in exempt:
+        gtxt = [t for t, pol in cguards_any(lsw, n) if pol]
+        oke = any(re.search(rf"\.(signal_type|output_type) == {re.escape(q)}", t) for t in gtxt)
+        rep.check(oke, "C03-R2", "a constant-one reference is exempt from retyping only when it is on the enable signal", "guarded by the reference's type" if oke else
+                  f"`{norm(n)}` under {[t[:60] for t in gtxt][-2:]}: a constant 1 on any signal is passed to the gates unprojected", lsw.loc(n))
+    rep.floor("C03-R2", "constant-one exemptions for references", len(exempt), 1)
     # sibling agreement of the constant-one recognisers
     iaw = repo.func("MemoryBuilder._is_always_write")
     def shape(f):
